@@ -27,8 +27,13 @@ func main() {
 	overlay := flag.String("overlay", "", "comma list of <repo-relative file>=<replacement file> (analysis of a variant without touching the tree)")
 	self := flag.Bool("selfcheck", false, "run the positive controls of the engine and exit")
 	checkerDir := flag.String("checker-dir", "/verif/checker", "checker module directory (positive controls, mutants)")
+	genKnown := flag.Bool("gen-known", false, "print the function keys of the tree (reference list for the normaliser) and exit")
+	dumpNorm := flag.String("dump-norm", "", "write the normalised sources to this directory and exit")
 	flag.Parse()
 	start := time.Now()
+	if *genKnown {
+		os.Exit(runGenKnown(*repo))
+	}
 	if *self {
 		os.Exit(runSelfcheck(*checkerDir))
 	}
@@ -86,6 +91,17 @@ func main() {
 			fmt.Printf("VIOLATION property=%s replay=%s reason=undecided: the tree cannot be loaded/type-checked: %v\n", id, filepath.Join(*evdir, id+".json"), err)
 		}
 		os.Exit(1)
+	}
+	for _, n := range p.NormNotes {
+		fmt.Println("NORMALISE:", n)
+	}
+	if *dumpNorm != "" {
+		for f, b := range p.NormOverlay {
+			dst := filepath.Join(*dumpNorm, strings.TrimPrefix(f, *repo))
+			os.MkdirAll(filepath.Dir(dst), 0o755)
+			os.WriteFile(dst, b, 0o644)
+		}
+		os.Exit(0)
 	}
 	exit := 0
 	for _, id := range ids {
